@@ -1256,7 +1256,8 @@ def c08_corr(res, exe, driver, tier, seed, tmp):
 
 # ---------------------------------------------------------------- C14: completion
 
-C14_CANDS = ["foo", "foobar", "foo bar", "fo", "f", "food", "é", "éa", "日本", "ba", "bar", "baz", "x y", "abc", "abd", "foobaz"]
+C14_CANDS = ["foo", "foobar", "foo bar", "fo", "f", "food", "é", "éa", "日本", "ba", "bar", "baz", "x y", "abc", "abd", "foobaz",
+             "日月", "日本語"]
 
 
 def completer(table, text, pos):
